@@ -148,6 +148,43 @@ Theorem C11_property_move_assignment_keeps_values :
 Proof. exact PropMove.grow_moveassign. Qed.
 Print Assumptions C11_property_move_assignment_keeps_values.
 
+(* what a legal move ASSIGNMENT over a destination no live binding reads does, field by field: destination = the source's value and
+   binding, source left valid and unbound; the bindings that survive read and update what they did with src renamed to dst; the
+   destination's OLD binding is dead and has left its evaluator's registry, no other registry changed *)
+Theorem C11_property_move_assignment_transfers :
+  forall fn rtl fuel w dst src w',
+    PropLink.pinv w -> PropSim.NOACT w -> PropFlags.NOEMIT w ->
+    (forall b lf, PropLink.has_leaf w b lf -> PropLink.lf_tg lf <> Some dst) ->
+    PropDefs.step1 fn rtl fuel w (PropDefs.PMoveAssign dst src) = (w', None) ->
+    exists s0 d0 dn sn,
+      lookup (PropDefs.w_props w) src = Some s0 /\ lookup (PropDefs.w_props w) dst = Some d0 /\ src <> dst /\
+      PropDefs.pr_value dn = PropDefs.pr_value s0 /\ PropDefs.pr_updater dn = PropDefs.pr_updater s0 /\
+      PropDefs.pr_value sn = PropDefs.pr_value s0 /\ PropDefs.pr_updater sn = None /\
+      (forall q, lookup (PropDefs.w_props w') q = if Nat.eqb q dst then Some dn else if Nat.eqb q src then Some sn else lookup (PropDefs.w_props w) q) /\
+      (forall t pos ser s1, PropLink.slot_at w' t pos ser s1 -> PropLink.slot_at w t pos ser s1) /\
+      (forall b, PropDefs.pr_updater d0 <> Some b ->
+                 match PropDefs.get_bind w b, PropDefs.get_bind w' b with
+                 | Some x, Some x' => PropDefs.b_evp x' = PropDefs.b_evp x /\
+                                      PropSim.abs_tree (PropDefs.b_root x') =
+                                      option_map (PropMove.aren (PropMove.rn src dst)) (PropSim.abs_tree (PropDefs.b_root x))
+                 | None, None => True
+                 | _, _ => False end) /\
+      (forall b x x', PropDefs.pr_updater d0 <> Some b -> PropDefs.get_bind w b = Some x -> PropDefs.get_bind w' b = Some x' ->
+         PropDefs.b_target x' = option_map (PropMove.rn src dst) (PropDefs.b_target x) /\
+         PropLink.leaves (PropDefs.b_root x') = map (PropLinkMove.mvl src dst) (PropLink.leaves (PropDefs.b_root x))) /\
+      match PropDefs.pr_updater d0 with
+      | Some bd => exists x, PropDefs.get_bind w bd = Some x /\ PropDefs.get_bind w' bd = None /\
+                     PropDefs.w_evps w' =
+                     match nth_error (PropDefs.w_evps w) (PropDefs.b_evp x) with
+                     | Some ep => Util.upd (PropDefs.w_evps w) (PropDefs.b_evp x)
+                                    {| PropDefs.ep_registry := filter (fun q => negb (Nat.eqb (fst q) (PropDefs.b_regid x))) (PropDefs.ep_registry ep);
+                                       PropDefs.ep_next := PropDefs.ep_next ep |}
+                     | None => PropDefs.w_evps w end
+      | None => PropDefs.w_evps w' = PropDefs.w_evps w end /\
+      length (PropDefs.w_binds w') = length (PropDefs.w_binds w).
+Proof. exact PropMove.moveassign_shape. Qed.
+Print Assumptions C11_property_move_assignment_transfers.
+
 (* ... and in worlds of EVALUATOR-DRIVEN bindings (coq/PropMoveLazy.v): a move construction keeps the state conditions of the one-pass
    theorem - so the bindings that read or update the moved property are brought up to date by the next evaluateAll as if nothing
    had moved (C06_network_with_moves_one_pass) *)
@@ -158,6 +195,17 @@ Theorem C11_property_move_construction_keeps_evaluator_driven_networks :
     PropSimLazy.LSC ev w' /\ PropGrowLazy.LSND fn w' /\ PropGrowLazy.LREG ev w'.
 Proof. exact PropMoveLazy.lazy_grow_movector. Qed.
 Print Assumptions C11_property_move_construction_keeps_evaluator_driven_networks.
+
+(* ... and so does a move ASSIGNMENT over a destination that no live binding reads; the destination's own evaluator-driven binding,
+   if it had one, dies and leaves its evaluator's registry (C06_registries_hold_live_bindings_only) *)
+Theorem C11_property_move_assignment_keeps_evaluator_driven_networks :
+  forall fn rtl ev fuel w dst src w',
+    PropSimLazy.LSC ev w -> PropGrowLazy.LSND fn w -> PropGrowLazy.LREG ev w -> PropFlags.NOEMIT w ->
+    (forall b lf, PropLink.has_leaf w b lf -> PropLink.lf_tg lf <> Some dst) ->
+    PropDefs.step1 fn rtl fuel w (PropDefs.PMoveAssign dst src) = (w', None) ->
+    PropSimLazy.LSC ev w' /\ PropGrowLazy.LSND fn w' /\ PropGrowLazy.LREG ev w'.
+Proof. exact PropMoveLazy.lazy_grow_moveassign. Qed.
+Print Assumptions C11_property_move_assignment_keeps_evaluator_driven_networks.
 
 (* non-vacuity: an input is move-constructed away and then move-assigned over another input of the same binding; legal, invariant
    holds, the binding follows (value 3+3 after the write to the final location), the overwritten input's reader reports
